@@ -2,6 +2,8 @@ package types
 
 import (
 	"time"
+
+	"github.com/tellor-io/layer/lib/simhook"
 )
 
 // PriceTimestamp maintains a price and its last update timestamp.
@@ -18,8 +20,11 @@ func NewPriceTimestamp() *PriceTimestamp {
 // UpdatePrice updates the price if the given update has a greater timestamp. Returns true if
 // updating succeeds. Otherwise, returns false.
 func (pt *PriceTimestamp) UpdatePrice(price uint64, newUpdateTime *time.Time) bool {
+	simhook.Yield("pt.update.enter")
 	if newUpdateTime.After(pt.LastUpdateTime) {
+		simhook.Yield("pt.update.afterCheck")
 		pt.LastUpdateTime = *newUpdateTime
+		simhook.Yield("pt.update.betweenWrites")
 		pt.Price = price
 
 		return true
@@ -31,6 +36,7 @@ func (pt *PriceTimestamp) UpdatePrice(price uint64, newUpdateTime *time.Time) bo
 // GetValidPrice returns (price, true) if the last update time is greater than or
 // equal to the given cutoff time. Otherwise returns (0, false).
 func (pt *PriceTimestamp) GetValidPrice(cutoffTime time.Time) (uint64, bool) {
+	simhook.Yield("pt.getValid.enter")
 	if pt.LastUpdateTime.Before(cutoffTime) {
 		return 0, false
 	}
